@@ -30,11 +30,18 @@ RECURSIVE LcmSet(_)
 LcmSet(S) == IF S = {} THEN 1 ELSE LET x == CHOOSE x \in S : TRUE IN Lcm(x, LcmSet(S \ {x}))
 ZeroUnion(a, b, tb) == AffRatB(a, b, tb)[2] = 0
 Guarded(r) == IF r[2] = 0 THEN <<0, 1>> ELSE r                       \* "if union == 0: return 0"
+\* Two zero-extent geometries at DIFFERENT instants are disjoint in time: their affinity is 0 (C06 DisjointInTime).
+\* At the SAME instant the ratio is 0/0 and C06 leaves the value open: an "open" pair.  open[i][j] says which value an
+\* implementation gives it: 0 (the zero-union guard, what the model assumes) or 1.
+OpenPair(a, b, tb) == ZeroUnion(a, b, tb) /\ Aff!PExt(a, tb, 0) = Aff!PExt(b, tb, 0)
 Denoms(src, tgt, tb) == {Guarded(AffRatB(src[i], tgt[j], tb))[2] : i \in DOMAIN src, j \in DOMAIN tgt}
-\* W[i][j] = affinity(src[i], tgt[j]) * D, D = lcm of the denominators; a zero-union pair counts 0
-ExactWB(src, tgt, tb) ==
+\* W[i][j] = affinity(src[i], tgt[j]) * D, D = lcm of the denominators
+ExactWO(src, tgt, tb, open) ==
     LET D == LcmSet(Denoms(src, tgt, tb)) IN
-    [i \in DOMAIN src |-> [j \in DOMAIN tgt |-> LET r == Guarded(AffRatB(src[i], tgt[j], tb)) IN r[1] * (D \div r[2])]]
+    [i \in DOMAIN src |-> [j \in DOMAIN tgt |->
+        IF OpenPair(src[i], tgt[j], tb) THEN open[i][j] * D
+        ELSE LET r == Guarded(AffRatB(src[i], tgt[j], tb)) IN r[1] * (D \div r[2])]]
+ExactWB(src, tgt, tb) == ExactWO(src, tgt, tb, [i \in DOMAIN src |-> [j \in DOMAIN tgt |-> 0]])
 ExactW(src, tgt) == ExactWB(src, tgt, 0)
 
 (* ---------------- one-to-one pairings and their value ---------------- *)
@@ -86,11 +93,14 @@ NTgt(o) == IF HasGeoms(o) THEN Len(o.in.tgt) ELSE Len(o.in.kt)
 N20(l)  == l[2] * 1048576 + l[3] * 16 + (l[4] \div 4096)                  \* floor of a value of [0,1] in units of 2^-20
 ObservedW(o, run) == [i \in 1..NSrc(o) |-> [j \in 1..NTgt(o) |-> N20(run.aff[i][j].l)]]
 AffOk(o, run) == \A i \in 1..NSrc(o), j \in 1..NTgt(o) : Aff!InUnit(run.aff[i][j])
-\* The exact matrix judges a lattice run as long as the code's own compute_affinity is 0 on the zero-union pairs (where
-\* C06 leaves the value open); should an implementation choose another value there, the observed matrix judges instead.
+\* The exact matrix judges a lattice run; on the open pairs (0/0) it takes the value the code's own compute_affinity
+\* gives them when that is 0 or 1; should an implementation choose yet another value, the observed matrix judges instead.
+ObsOpen(v) == IF v.l[1] = 0 THEN 0 ELSE IF v.h = "0x1.0000000000000p+0" THEN 1 ELSE 2
 UseExact(o, run) == IsLat(o) /\ \A i \in 1..NSrc(o), j \in 1..NTgt(o) :
-                                  ZeroUnion(o.in.src[i], o.in.tgt[j], o.in.tb) => run.aff[i][j].l[1] = 0
-WOf(o, run) == IF UseExact(o, run) THEN ExactWB(o.in.src, o.in.tgt, o.in.tb) ELSE ObservedW(o, run)
+                                  OpenPair(o.in.src[i], o.in.tgt[j], o.in.tb) => ObsOpen(run.aff[i][j]) # 2
+WOf(o, run) == IF UseExact(o, run)
+               THEN ExactWO(o.in.src, o.in.tgt, o.in.tb, [i \in 1..NSrc(o) |-> [j \in 1..NTgt(o) |-> ObsOpen(run.aff[i][j])]])
+               ELSE ObservedW(o, run)
 \* floors move a sum of k entries by less than k
 Tol(o, run) == IF UseExact(o, run) THEN 0 ELSE Min(NSrc(o), NTgt(o))
 
